@@ -3,7 +3,7 @@
    ONLY statements closed by `exact`, with Print Assumptions beneath each, and an Example per theorem. *)
 From Coq Require Import ZArith List Bool Sorted.
 From Mesa Require Import Generated.Tables Model.Devs Model.DevsSpec
-  Proofs.DevsProofs Proofs.DevsChunkProofs Proofs.DevsStepProofs Proofs.DevsTopProofs Proofs.DevsVizProofs.
+  Proofs.DevsProofs Proofs.DevsChunkProofs Proofs.DevsStepProofs Proofs.DevsTopProofs Proofs.DevsVizProofs Proofs.DevsVizTopProofs.
 Import ListNotations.
 Open Scope Z_scope.
 
@@ -55,6 +55,23 @@ Theorem C15_run_for_pieces : forall cfg fuel n d st st1 l1, inv st -> 0 <= d -> 
   exists m, run_loop cfg m (s_time st + Z.of_nat n * d) st = (st1, l1, true).
 Proof. exact run_for_pieces. Qed.
 Print Assumptions C15_run_for_pieces.
+
+(* SimulatorController.do_step advances the simulator by run_for(gen_viz_run_for) per frame (literal read from
+   solara_viz.py by T1): n frames are one run_until(now + n*delta), and under ABMSimulator started at an integer
+   tick the model has then stepped exactly up to the new clock *)
+Theorem C15_viz_do_step : forall cfg fuel n st st1 l1, inv st -> (0 < n)%nat ->
+  run_pieces cfg fuel st (repeat (PFor (gen_viz_run_for * SCALE)) n) = (st1, l1, true) ->
+  exists m, run_loop cfg m (s_time st + Z.of_nat n * (gen_viz_run_for * SCALE)) st = (st1, l1, true).
+Proof. exact viz_do_step. Qed.
+Print Assumptions C15_viz_do_step.
+
+Theorem C15_viz_steps : forall cfg fuel n st st1 l1, c_abm cfg = true -> inv st -> step_inv st -> (0 < n)%nat ->
+  s_time st mod SCALE = 0 ->
+  run_pieces cfg fuel st (repeat (PFor (gen_viz_run_for * SCALE)) n) = (st1, l1, true) ->
+  s_steps st1 * SCALE = s_time st + Z.of_nat n * (gen_viz_run_for * SCALE) /\
+  s_time st1 = s_time st + Z.of_nat n * (gen_viz_run_for * SCALE).
+Proof. exact viz_steps. Qed.
+Print Assumptions C15_viz_steps.
 
 (* run_until at any horizons below T, then run_until T *)
 Theorem C15_run_until_pieces : forall cfg fuel ts st T st1 l1 st2 l2, inv st -> Forall (fun t => t <= T) ts ->
@@ -162,7 +179,7 @@ Qed.
 
 Example C15_run_for_example :
   let st := final ex_cfg 50 (init ex_cfg) ex_ops in
-  let r := run_pieces ex_cfg 50 st (repeat (PFor 8) 4) in
+  let r := run_pieces ex_cfg 50 st (repeat (PFor (gen_viz_run_for * SCALE)) 4) in
   snd r = true /\ run_loop ex_cfg 50 (s_time st + 4 * 8) st = (fst (fst r), snd (fst r), true) /\
   s_steps (fst (fst r)) = 4 /\ length (snd (fst r)) = 13%nat.
 Proof. cbv zeta. repeat split; vm_compute; reflexivity. Qed.
